@@ -471,6 +471,10 @@ impl Searcher {
     pub fn verif_quiescence(&mut self, board: &Board) -> i32 {
         self.search_until_quiet(board, NEGATIVE_INFINITY, INFINITY)
     }
+    /// the budget the most recent search was started with
+    pub fn verif_time_limit(&self) -> Option<std::time::Duration> {
+        self.timer.time_limit()
+    }
 }
 
 impl Default for Searcher {
